@@ -29,10 +29,19 @@ import (
 	"verif/rewrite"
 )
 
-const (
-	verifDir = "/verif"
-	repoDir  = "/repo"
+// Locations; overridable only for isolated evaluation of seeded changes
+// (tools/seed_eval_iso.sh). MANIFEST commands always use the defaults.
+var (
+	verifDir = envOr("VERIF_DIR", "/verif")
+	repoDir  = envOr("VERIF_REPO", "/repo")
 )
+
+func envOr(k, d string) string {
+	if v := os.Getenv(k); v != "" {
+		return v
+	}
+	return d
+}
 
 type spec struct {
 	ID        string
@@ -53,7 +62,7 @@ func reg(s *spec) { specs[s.ID] = s }
 func env() []string {
 	e := os.Environ()
 	e = append(e, "GOFLAGS=-mod=mod", "GOPROXY=off", "GOSUMDB=off", "GOTOOLCHAIN=local",
-		"GOCACHE="+filepath.Join(verifDir, ".cache", "go-build"), "CGO_ENABLED=0")
+		"GOCACHE="+envOr("VERIF_GOCACHE", filepath.Join(verifDir, ".cache", "go-build")), "CGO_ENABLED=0")
 	return e
 }
 
